@@ -48,6 +48,14 @@ func bmpSweep(seed int64, n int, emit func(s string)) {
 	for _, c := range []rune{0x10000, 0x1f600, 0x10ffff} {
 		emit(string(c))
 	}
+	// runes that must be in every run, whatever part of the plane the seed selects
+	for _, c := range oddRunes {
+		s := string(c)
+		emit(s)
+		emit("caf" + s)
+		emit(s + "x" + s)
+		emit("it" + s + "s")
+	}
 }
 
 func genQuoteStr(r *rand.Rand, n int, emit func(args ...string)) {
